@@ -95,7 +95,7 @@ def run(ctx):
             break
         case = R.gen_case(ctx.rng, idx, ctx.quick)
         try:
-            out = R.CaseRun(case).run()
+            out = R.CaseRun(case, cap=300.0 if case["steps"][0][0] == "readv_pair" else 90.0).run()
         except Exception:
             import traceback
 
@@ -180,5 +180,5 @@ def run(ctx):
     ctx.require("cases_bounded_pipe", ctx.pick(60, 1500))
     ctx.require("cases_both_directions_blocked", ctx.pick(8, 200))
     ctx.require("cases_server_blocked_on_unread_answers", ctx.pick(25, 600))
-    ctx.require("cases_with_concurrent_readv", ctx.pick(10, 300))
-    ctx.require("second_readv_issued_while_first_still_registering", ctx.pick(12, 300))
+    ctx.require("cases_with_concurrent_readv", ctx.pick(6, 60))
+    ctx.require("second_readv_issued_while_first_still_registering", ctx.pick(6, 60))
